@@ -7,7 +7,9 @@ import RisorModel.C20.Bridge
 
   lex  <src-utf8-hex>                      → ok TAB tok;tok;…   tok = kindhex,lithex,sChar,sLine,sCol,sLS,eChar,eLine,eCol,eLS
                                              (an error ends the stream: E,cls[,kindhex,lithex,positions…])
-  diag <src-utf8-hex> <start> <end> <eof>  → quotedhex TAB line TAB col TAB endCol TAB renderOk TAB diagOk TAB singleLine
+  diag <src-utf8-hex> <start> <end> <eof>  → quotedhex TAB line TAB col TAB endCol TAB renderOk TAB diagOk TAB singleLine TAB pad:carets
+                                             (renderOk and pad:carets = the repaired FriendlyErrorMessage: its two Repeat counts,
+                                              the caret count taken against the quoted line when the span leaves the line)
   kl   <src-utf8-hex>                      → kinds and literals only (layout comparisons)
   parsenl <tokens> <tree|-> <nls|-> <commas|->
        tokens: the REAL lexer's tokens of one expression text with line breaks, `typehex:lithex`
@@ -221,8 +223,9 @@ def handle : List String → String
       let ps := posAt src s
       let pe := posAt src e
       toHexField (utf8s q) ++ "\t" ++ toString ps.line ++ "\t" ++ toString ps.col ++ "\t" ++ toString pe.col
-        ++ "\t" ++ toString (renderOk ps.col pe.col) ++ "\t" ++ toString (diagOk src ps.line ps.col q)
+        ++ "\t" ++ toString (renderOk ps.line ps.col pe.line pe.col q.length) ++ "\t" ++ toString (diagOk src ps.line ps.col q)
         ++ "\t" ++ toString (singleLineSpan src s e)
+        ++ "\t" ++ toString (padCount ps.col) ++ ":" ++ toString (caretCount ps.line ps.col pe.line pe.col q.length)
     | _, _, _ => "error\tbad-request"
   | _ => "error\tunknown-request"
 
